@@ -18,7 +18,7 @@ ASSUMPTIONS = ['parallel_handlers buses excluded: sibling handlers of the parent
 def families(tier):
     deep = tier == 'thorough'
     out = []
-    cfg = dict(bound=3 if deep else 2, cap=50000 if deep else 2500, window=0.25, max_targets=2)
+    cfg = dict(bound=4 if deep else 2, cap=50000 if deep else 2500, window=0.25, max_targets=2)
     for ybus, before, other_q, late, cshape, k in itertools.product('AB', (0, 1, 2), (0, 1), ('none', 'actor', 'handler'), ('ret', 'pause', 'g_aw', 'g_ff'), (0, 1)):
         if before == 0 and other_q == 0 and late == 'none':
             continue
